@@ -442,10 +442,18 @@ def run_bmc(q, prop, findings):
         # reachability witness of the environment itself: the assumptions can be met through the whole depth (otherwise
         # every assertion beyond the dead step would pass vacuously)
         r = dict(base, check="alive")
-        s = _solver(min(q.timeout, 300))
-        s.add(U.ok[q.K - 1])
         t0 = time.time()
+        # existence only: first try with every free constant input at 0 (usually immediate), then in general
+        s = _solver(min(q.timeout, 60))
+        s.add(U.ok[q.K - 1])
+        for name, var in U.consts.items():
+            if not name.startswith("$"):
+                s.add(var == 0)
         out = str(s.check())
+        if out != "sat":
+            s = _solver(min(q.timeout, 300))
+            s.add(U.ok[q.K - 1])
+            out = str(s.check())
         r["solver_s"] = round(time.time() - t0, 2)
         r["result"] = out
         r["status"] = {"sat": "covered", "unsat": "vacuous"}.get(out, "unknown")
